@@ -18,6 +18,9 @@ from . import sym
 from .sym import PathEnd, SymBase, SymBool, SymInt, SymReal, Unsupported, ctx, term_of
 
 
+NONE_CODE = -(2**61) - 7
+
+
 def _int_term(x):
     tk = term_of(x)
     if tk is None or tk[1] not in ("int",):
@@ -79,6 +82,8 @@ def _flatten(shape, v) -> list:
     from .contract import BytesSeg, Const, Int, Real, SymBoolShape, Tup
 
     if isinstance(shape, Int):
+        if v is None:
+            return [z3.IntVal(NONE_CODE)]  # `None` stored in an int slot of a ghost list (e.g. chunk id of header/footer)
         return [_int_term(v)]
     if isinstance(shape, Real):
         t, k = term_of(v)
@@ -395,6 +400,32 @@ class SymBytes(SymBase):
         if not self.mutable:
             raise AttributeError("'bytes' object has no attribute 'extend'")
         self.__iadd__(o)
+
+    def __delitem__(self, i):
+        """del b[a:b] on a bytearray: only removal of a prefix or of a suffix keeps the value a
+        stream segment; anything else is flagged (obligation) because bytes would go missing from
+        the middle."""
+        if not self.mutable:
+            raise TypeError("'bytes' object doesn't support item deletion")
+        if not isinstance(i, slice) or i.step not in (None, 1):
+            raise Unsupported("del of a single byte / stepped slice on an abstract byte segment")
+        from .spec import py_slice_bounds
+
+        n = SymInt(self.hi - self.lo)
+        a, b = py_slice_bounds(i.start, i.stop, n)
+        at, bt = _int_term(a), _int_term(b)
+        bt = z3.If(bt >= at, bt, at)
+        c = ctx()
+        nn = self.hi - self.lo
+        ok = z3.Or(bt == at, at == 0, bt == nn)
+        c.check(ok, "bytes-deleted-only-at-the-ends", kind="bytes-adjacent")
+        c.assume(ok)
+        new_lo = z3.If(z3.And(at == 0, bt > at), self.lo + bt, self.lo)
+        new_hi = z3.If(z3.And(bt == nn, at > 0, bt > at), self.lo + at, self.hi)
+        # prefix and suffix at once (everything deleted): empty at the old end
+        new_lo = z3.If(z3.And(at == 0, bt == nn), self.hi, new_lo)
+        new_hi = z3.If(z3.And(at == 0, bt == nn), self.hi, new_hi)
+        self.lo, self.hi = z3.simplify(new_lo), z3.simplify(new_hi)
 
     def __eq__(self, o):
         if o is self:
